@@ -214,6 +214,7 @@ MUTANTS = [
             raise ValueError(f"Invalid isoformat string: '{entered_input}'")
 """, "")], ["C20"]),
     ("fixrevert_d16_validity_of_unresolved_tree", [(CE, """        if any(tree.scan_values(lambda value: isinstance(value, Token) and value.type == "CONDITION_EXPRESSION")):""", """        if False and any(tree.scan_values(lambda value: isinstance(value, Token) and value.type == "CONDITION_EXPRESSION")):""")], ["C06"]),
+    ("fixrevert_d17_shared_label_tokens", [(UTIL, """    tree_copied = type(tree)(copy.copy(tree.data), [], meta=getattr(tree, "_meta", None))""", """    tree_copied = type(tree)(tree.data, [], meta=getattr(tree, "_meta", None))"""), (UTIL, """                child_copied = type(child)(copy.copy(child.data), [], meta=getattr(child, "_meta", None))""", """                child_copied = type(child)(child.data, [], meta=getattr(child, "_meta", None))""")], ["C11"]),
     ("fixrevert_d7_931_midnight", [(TAG, "    if utc_offset == timedelta(0):", "    if utc_offset == timedelta(0) and date_time.time() == time(0, 0, 0):")], ["C20"]),
     ("fixrevert_d8_overflow", [(TAG, "    except OverflowError as overflow_error:", "    except ZeroDivisionError as overflow_error:")], ["C20"]),
     ("fixrevert_d4_soll_flag", [(VAL, """            tasks.append(
